@@ -64,6 +64,10 @@ class Sim:
     def cmd_edges(self):
         return [e for e in self.g['edges'] if not e['phony']]
 
+    def new_content(self, s, c):
+        self.edit_n += 1
+        return "K%d" % c if c < 3 else "%s#%d" % (s, self.edit_n)
+
     def write(self, path, content):
         self.now += 1
         self.files[path] = {'c': content, 'm': self.now}
@@ -97,8 +101,47 @@ class Sim:
         cmds = self.cmd_edges()
         if k == 'edit':
             s = srcs[op['a'] % len(srcs)]
-            self.edit_n += 1
-            self.write(s, "%s#%d" % (s, self.edit_n))
+            self.write(s, self.new_content(s, op.get('c', 5)))
+        elif k == 'rehide' and cmds:
+            # the set of files a command reads beyond its declared inputs changes because one of its declared source
+            # inputs changed (an #include was replaced): new hidden set of the same size over other sources
+            es = [e for e in cmds if e.get('deps') and e.get('hidden') and any(i in srcs for i in e['exp'] + e['imp'])]
+            if es:
+                e = es[op['a'] % len(es)]
+                cand = [x for x in srcs if x not in e['exp'] + e['imp'] + e['oo']]
+                gen_h = [h for h in e['hidden'] if h not in srcs]
+                nsrc = len(e['hidden']) - len(gen_h)
+                if len(cand) >= max(nsrc, 1):
+                    rot = op['b'] % len(cand)
+                    new = (cand[rot:] + cand[:rot])[:max(nsrc, 1)]
+                    if sorted(new + gen_h) != sorted(e['hidden']):
+                        e['hidden'] = new + gen_h
+                        src_in = [i for i in e['exp'] + e['imp'] if i in srcs][0]
+                        self.write(src_in, self.new_content(src_in, op.get('c', 5)))
+                        self.labels.add('rehide')
+        elif k == 'swap_hidden_same_content' and cmds:
+            # directed: an include is replaced by another file with identical content, so a write-if-changed
+            # (restat) command reproduces its output byte for byte while its dependency set changes
+            es = [e for e in cmds if e.get('deps') and any(h in srcs for h in e.get('hidden', [])) and
+                  any(i in srcs for i in e['exp'] + e['imp'])]
+            if es:
+                e = es[op['a'] % len(es)]
+                old = [h for h in e['hidden'] if h in srcs][0]
+                cand = [x for x in srcs if x not in e['exp'] + e['imp'] + e['oo'] + e['hidden']]
+                if cand and old in self.files:
+                    new = cand[op['b'] % len(cand)]
+                    self.write(new, self.files[old]['c'])
+                    e['hidden'] = [new if h == old else h for h in e['hidden']]
+                    src_in = [i for i in e['exp'] + e['imp'] if i in srcs][0]
+                    self.now += 1
+                    self.files[src_in]['m'] = self.now
+                    self.labels.add('swap_hidden_same_content')
+        elif k == 'wipe_outs' and cmds:
+            if not any(self.unordered_hidden(e) for e in cmds):
+                for e in cmds:
+                    for o in all_outs(e):
+                        self.files.pop(o, None)
+                self.labels.add('wipe_outs')
         elif k == 'touch':
             s = srcs[op['a'] % len(srcs)]
             if s in self.files:
@@ -472,6 +515,17 @@ class Sim:
         for sig, kw in (('D1_dirty_edge_ignores_discovered_inputs', dict(cf_dirty_ignores_discovered=True)),
                         ('D8_failed_command_touched_output_trusted', dict(cf_trust_after_failed_touch=True))):
             p = m.plan(self.g, files_before, targets, **kw)
+            if p['error'] is None and need_same_run and sorted(p['run']) != sorted(started) and p['ignored']:
+                # a restat statement that ran without its discovered inputs may or may not have reproduced its old
+                # output (it depends on whether the ignored producer happened to run first): both outcomes belong to
+                # the counterfactual prediction
+                amb = [x for x in sorted(self.downstream(p['ignored'])) if (self.edge_by_key(x) or {}).get('restat')][:4]
+                for mask in range(1, 1 << len(amb)):
+                    sub = [amb[i] for i in range(len(amb)) if mask >> i & 1]
+                    p2 = m.plan(self.g, files_before, targets, assume_flip=sub, **kw)
+                    if p2['error'] is None and sorted(p2['run']) == sorted(started):
+                        p = p2
+                        break
             if p['error'] is not None or (need_same_run and sorted(p['run']) != sorted(started)):
                 continue
             origin = p['ignored'] | p['trusted']
